@@ -27,7 +27,7 @@ import (
 type Kind int
 
 const (
-	KTrue Kind = iota // OP_TRUE, anyone can spend
+	KTrue Kind = iota + 1 // OP_TRUE, anyone can spend (non-zero: the zero Kind means "not specified")
 	KP2PKH
 	KP2WPKH
 	KP2SHTrue  // P2SH of the redeem script OP_TRUE
@@ -481,8 +481,8 @@ type BlockOpts struct {
 	CoinbaseKind Kind
 	ShortPay     int64 // pay this much less than subsidy+fees in the coinbase
 	Name         string
-	Detached bool  // do not insert the block into the tree
-	FixedTime int64 // exact timestamp (overrides TimeStep / family defaults)
+	Detached     bool  // do not insert the block into the tree
+	FixedTime    int64 // exact timestamp (overrides TimeStep / family defaults)
 	// Finish, when set, may alter the assembled block before merkle/commitment/solve are (re)computed;
 	// it returns the label of the result.
 	Mutate func(b *Draft)
@@ -642,8 +642,11 @@ func (g *Gen) Block(r *mon.Rand, parent *refchain.Block, o BlockOpts) *refchain.
 	sig = append(sig, r.Bytes(8)...)
 	cb.AddTxIn(&wire.TxIn{PreviousOutPoint: wire.OutPoint{Index: 0xffffffff}, SignatureScript: sig, Sequence: 0xffffffff})
 	cbKind := o.CoinbaseKind
-	if cbKind == 0 && (g.StandardOnly || r.Chance(1, 3)) {
-		cbKind = g.RandomKind(r)
+	if cbKind == 0 {
+		cbKind = KTrue
+		if g.StandardOnly || r.Chance(1, 3) {
+			cbKind = g.RandomKind(r)
+		}
 	}
 	cb.AddTxOut(&wire.TxOut{Value: subsidy + fees - o.ShortPay, PkScript: g.Script(cbKind, r.Intn(len(g.keys)), r)})
 	msg := &wire.MsgBlock{Header: wire.BlockHeader{Version: 0x20000000, PrevBlock: parent.Hash,
